@@ -71,8 +71,10 @@ def entry_problem(e, debug, pinned_possible, where):
     return None
 
 
-def result_problem(res, n_inputs, debug, pinned_possible, allow_single_for_list=False):
-    """n_inputs None: single input"""
+def result_problem(res, n_inputs, debug, pinned_possible, allow_single_for_list=False, entry_debug=None):
+    """n_inputs None: single input; entry_debug: whether the graders producing the entries were configured with debug"""
+    if entry_debug is None:
+        entry_debug = debug
     if not isinstance(res, dict):
         return 'result-not-a-dict', repr(res)
     if n_inputs is None or (allow_single_for_list and 'input_list' not in res):
@@ -88,7 +90,7 @@ def result_problem(res, n_inputs, debug, pinned_possible, allow_single_for_list=
     if not isinstance(res['input_list'], list) or len(res['input_list']) != n_inputs:
         return 'entry-count', 'expected %d entries, got %r' % (n_inputs, res['input_list'])
     for i, e in enumerate(res['input_list']):
-        p = entry_problem(e, debug, pinned_possible, 'entry %d' % i)
+        p = entry_problem(e, entry_debug, pinned_possible, 'entry %d' % i)
         if p:
             return p
     return None
@@ -142,7 +144,8 @@ class ConfigFamily(Family):
                     shapes.add('raised:' + out[1])
                     continue
                 res = out[1]
-                p = result_problem(res, n, c['debug'], c.get('pinned', False), c.get('allow_single', False))
+                p = result_problem(res, n, c['debug'], c.get('pinned', False), c.get('allow_single', False),
+                                   entry_debug=c.get('entry_debug'))
                 if p:
                     return Result(p[0], True,
                                   viol('%s:%s' % (self.name, p[0]), '%s; input %r attempt %r: %s -> %r' % (c['label'], inp, att, p[1], res),
@@ -282,6 +285,15 @@ class ListGraders(ConfigFamily):
                                                                          ordered=True, grouping=[2, 1, 2], **kw)),
             ('singlelist_sub', 2, False, lambda **kw: ListGrader(answers=[['cat', 'dog'], ['emu', 'cat']],
                                                                   subgraders=SingleListGrader(subgrader=sg()), **kw)),
+            # subgraders configured with debug=True below a parent that is not: the parent's own messages stay clean
+            ('flat2_debug_child', 2, False, lambda **kw: ListGrader(answers=['cat', ('dog', half)],
+                                                                     subgraders=StringGrader(wrong_msg='w', debug=True), **kw)),
+            ('subgrader_list_debug_child', 2, False,
+             lambda **kw: ListGrader(answers=['cat', {'expect': '2', 'grade_decimal': 0.5}],
+                                     subgraders=[sg(), NumericalGrader(debug=True)], ordered=True, **kw)),
+            ('grouped_nested_debug_grandchild', 4, False,
+             lambda **kw: ListGrader(answers=[['cat', 'dog'], ['emu', half]],
+                                     subgraders=ListGrader(subgraders=StringGrader(debug=True)), grouping=[1, 2, 1, 2], **kw)),
         ]
 
     def configs(self, tier):
@@ -292,7 +304,7 @@ class ListGraders(ConfigFamily):
                 words = WORDS
             if lname == 'singlelist_sub':
                 words = ['cat,dog', 'dog,cat', 'emu', '', 'cat,emu,dog']
-            if lname == 'subgrader_list':
+            if lname.startswith('subgrader_list'):
                 inputs = [[a, b] for a in WORDS for b in ('2', '2.05', '', 'ünï', '7')]
             else:
                 inputs = [list(t) for t in itertools.product(words, repeat=n)]
@@ -306,6 +318,7 @@ class ListGraders(ConfigFamily):
                                 continue
                             label = 'ListGrader %s partial_credit=%s attempt_based_credit=%s msg=%s debug=%s' % (lname, pc, cname, cmsg, debug)
                             yield dict(label=label, debug=debug, pinned=pinned, inputs=inputs,
+                                       entry_debug=(True if 'debug_' in lname else None),
                                        make=(lambda mk=mk, pc=pc, cfn=cfn, cmsg=cmsg, debug=debug:
                                              mk(partial_credit=pc, attempt_based_credit=cfn, attempt_based_credit_msg=cmsg, debug=debug)))
 
